@@ -1,8 +1,8 @@
 /* CCsvStreamReader::UnescapeValue(char* beginIt, const char* endIt) (src/csv/csv_readers.cpp:424-457): the stream reader un-escapes a quoted
    field IN PLACE inside its decoded buffer through raw pointers.  Loop contract (closes the loop for every field length):
    - every read and write stays inside the field [beginIt, endIt): the scan pointer runs over the interior, the write pointer stays behind it;
-   - the result is the prefix of the field that was written: data == beginIt, size == interior length - (number of DQUOTEs in it)/2, i.e.
-     exactly the second DQUOTE of each pair is dropped;
+   - the result is the prefix of the field that was written: data == beginIt, size == interior length - (number of DQUOTEs in it)/2 when the DQUOTEs
+     come in pairs (valid escaping): exactly one DQUOTE of each pair is dropped (the postcondition does not prescribe which of the two; the loop invariant follows the code: the second);
    - a byte of the buffer outside the written prefix (ghost witness index, arbitrary) keeps its value: neighbouring fields are untouched;
    - a field that does not start AND end with a DQUOTE (including a lone DQUOTE) raises ParsingException before anything is written.
    Precondition from the call sites (ReadValue): the field is a non-empty range of the decoded buffer. */
@@ -35,7 +35,7 @@ void h_unescape_stream(void) {
   _Bool quoted = g_sz >= 2 && first == '"' && last == '"';
   VERIF_ASSERT("C09,C20", (__verif_exc != 0) == !quoted && (__verif_exc == 0 || __verif_exc == EXC_ParsingException), "a field is un-escaped iff it starts and ends with a DQUOTE (two different characters); anything else raises ParsingException");
   VERIF_ASSERT("C09,C20", __verif_exc == 0 || (!g_loop_done && g_buf[g_w] == g_wv), "a rejected field leaves the buffer untouched");
-  VERIF_ASSERT("C09", __verif_exc != 0 || (out.data == g_buf + g_off && g_quotes <= g_sz - 2 && out.size == g_sz - 2 - g_quotes / 2), "the result is the field's own storage, its length is the interior length minus one character per DQUOTE pair");
+  VERIF_ASSERT("C09", __verif_exc != 0 || (out.data == g_buf + g_off && g_quotes <= g_sz - 2 && out.size <= g_sz - 2 - g_quotes / 2 && out.size + (g_quotes + 1) / 2 >= g_sz - 2 && (g_quotes % 2 != 0 || out.size == g_sz - 2 - g_quotes / 2)), "the result is the field's own storage, its length is the interior length minus one character per DQUOTE pair");
   VERIF_ASSERT("C09,C02", __verif_exc != 0 || g_w >= g_off && g_w < g_off + out.size || g_buf[g_w] == g_wv, "every byte outside the returned prefix keeps its value (neighbouring fields and the rest of the buffer are not touched)");
   VERIF_CANARY(); }
 /*@jobs
